@@ -201,6 +201,9 @@ func (g *gen) goodTx() TxSpec {
 	if r.Bool(0.1) {
 		t.Amt = 5 // zero-value output: legal, must stay out of address lists
 	}
+	if (g.prop == "C06" || g.prop == "C14" || g.prop == "C15") && r.Intn(20) == 0 {
+		t.Wide = r.Range(250, 330) // payout shape: output indexes beyond one byte (seed C06-3)
+	}
 	if g.p.Knob("ccactor", 0) > 0 {
 		// the cross-chain address sits right after the key holders: deposits
 		// arrive there and a Byzantine client tries to take them
